@@ -256,3 +256,11 @@ func TestD17_ParOrFullRunShared(t *testing.T) {
 		t.Fatalf("mutating ParOr's result changed an input")
 	}
 }
+
+// #16a C15: NextAbsentValue when an array chunk is full up to its upper edge (65535).
+func TestD16_NextAbsentValueArrayEdge(t *testing.T) {
+	b := roaring.BitmapOf(65533, 65534, 65535, 2<<16|7) // a later chunk exists, so the driver walks on
+	if got := b.NextAbsentValue(65534); got != 65536 {
+		t.Fatalf("NextAbsentValue(65534) = %d, want 65536", got)
+	}
+}
